@@ -34,3 +34,47 @@ contract("xdoctest.checker:_ellipsis_match",
          hints=["lemma placed_mono"],
          props=["C06"], gen="ellipsis_pairs",
          sentinel=("iff-off-by-one", "result == S.ellipsis_match(got + 'x', want)"))
+
+
+# ------------------------------------------------------------------------ C03
+contract("xdoctest.checker:_strip_exception_details",
+         params={"msg": "str"}, returns="str",
+         ensures=[("name", "result == S.exc_name(msg)"),
+                  ("first-line", "'\\n' not in result and ':' not in result")],
+         props=["C03"], gen="exc_messages",
+         sentinel=("keeps-module-path", "result == S.substr(msg, 0, S.name_end(msg))"))
+
+contract("xdoctest.checker:extract_exc_want",
+         params={"want": "str"}, returns="Optional[str]", trusted=True,
+         ensures=[("none", "(result is None) == S.exc_want_none(want)"),
+                  ("some", "implies(result is not None, result == S.exc_want(want))")],
+         props=["C03"],
+         note="T: _EXCEPTION_RE (lazy quantifier, DOTALL, named groups) is outside the regex fragment; "
+              "bounded cross-check against an independent procedural definition in C03.shape")
+
+contract("xdoctest.checker:check_output",
+         params={"got": "str", "want": "str", "runstate": "Val"}, returns="bool",
+         ensures=[("rel", "result == S.match(got, want, runstate)")],
+         props=["C05"], opts={"native": False},
+         trusted=True,
+         note="used as a callee contract by C02/C03; its own verification against the pipeline spec is C05")
+
+contract("xdoctest.checker:check_exception",
+         params={"exc_got": "str", "want": "str", "runstate": "Val"}, returns="bool",
+         ensures=[("true", "result == True"),
+                  ("iff", "(not S.exc_want_none(want)) and S.exc_match(exc_got, want, runstate)")],
+         raises={"LIVE": "S.exc_want_none(want)",
+                 "GotWantException": "(not S.exc_want_none(want)) and not S.exc_match(exc_got, want, runstate)"},
+         props=["C03"], opts={"native": False},
+         sentinel=("never-reraises", "S.exc_want_none(want)"))
+
+# ------------------------------------------------------------------------ C02
+contract("xdoctest.checker:check_got_vs_want",
+         params={"want": "str", "got_stdout": "str", "got_eval": "Val", "runstate": "Val"}, returns="bool",
+         ensures=[("true", "result == True"),
+                  ("table", "S.V(want, got_stdout, got_eval, runstate)")],
+         raises={"ExtractGotReprException": "S.repr_fails(want, got_stdout, got_eval, runstate)",
+                 "GotWantException": "(not S.repr_fails(want, got_stdout, got_eval, runstate)) and "
+                                     "not S.V(want, got_stdout, got_eval, runstate)"},
+         props=["C02", "C09"], opts={"native": False},
+         sentinel=("stdout-only", "S.match(got_stdout, want, runstate)"))
